@@ -2,6 +2,7 @@ package main
 
 import (
 	"bytes"
+	"fmt"
 
 	"github.com/ipfs/go-cid"
 	mh "github.com/multiformats/go-multihash"
@@ -57,6 +58,9 @@ func c06Blocks(r *RNG, n int) []Blk {
 func c06RunSession(c *Ctx, s c06Sess, step int, what string) {
 	f0, log, err := c06ObserveWrites(c.Work, s)
 	if err != nil {
+		// the model must agree that this session cannot be run (open or an earlier process's
+		// reopen fails): a session the model runs and the library refuses is a difference
+		c.Emit("crash", c06WritesCase(s), VL{VT("sesserr")}, false)
 		c.Count("session:does-not-open")
 		return
 	}
@@ -81,6 +85,8 @@ func c06RunSession(c *Ctx, s c06Sess, step int, what string) {
 func init() {
 	register("c06", func(c *Ctx) {
 		rows := c06Rows()
+		witd1 := []byte("verif-c06-a")
+		wit1 := []Blk{{mkCid(1, 0x55, mh.SHA2_256, -1, witd1), witd1}}
 		{
 			// the fixed session of the C06 refutation witnesses (coq/proofs/CrashRefuted.v)
 			d0, d1, d2 := []byte("verif-c06-root"), []byte("verif-c06-a"), bytes.Repeat([]byte("verif-c06-bb"), 20)
@@ -139,6 +145,25 @@ func init() {
 				what = "resumed-after-" + s.pre[0].cut
 			}
 			c06RunSession(c, s, 1, what)
+		}
+		{
+			// a root list whose header payload is exactly 16384 bytes (length varint 3 bytes wide):
+			// every reopen of an image locates the first section through carv1.HeaderSize.  The
+			// crashing process resumes a finalized file (the 16 KiB header is not among its writes)
+			tiny := []byte("tiny")
+			hs := c06Sess{kind: 0, o: defaultWOpts, roots: crRootsForHeaderLen(c.R.Fork(), 16384), fin: true,
+				pre: []crSeg{{cut: "finalize", blks: wit1}}, puts: []Blk{{mkCid(1, 0x55, mh.SHA2_256, -1, tiny), tiny}}}
+			c06RunSession(c, hs, 23, "header-length=16384-resumed") // every 23rd crash point: the extracted model needs ~0.3 s per image with a 16 KiB header
+			if c.Thorough {
+				for i, target := range []int{127, 128, 16383, 16385} {
+					h2 := hs
+					h2.roots = crRootsForHeaderLen(c.R.Fork(), target)
+					h2.kind = uint64(i % 2)
+					h2.o.v1 = i%2 == 1
+					h2.pre = []crSeg{{cut: []string{"discard", "finalize"}[i/2%2], blks: wit1}}
+					c06RunSession(c, h2, 3, fmt.Sprintf("header-length=%d-resumed", target))
+				}
+			}
 		}
 	})
 }
